@@ -383,7 +383,7 @@ def h3_pupils(ctx, K, stop, obj, ap, ft, mirrors):
 
 @harness('C04', 'H4_linear', funcs=FUNCS,
          cases=lambda tier: [dict(K=2, mirrors=()), dict(K=2, mirrors=(2,))] + ([dict(K=3, mirrors=())] if tier == 'thorough' else []),
-         bounds='K=2 (thorough 4); two arbitrary launch rays and two arbitrary weights',
+         bounds='K=2 (thorough 3); two arbitrary launch rays and two arbitrary weights',
          doc='_trace_generic is linear in launch height and slope: trace(a r1 + b r2) = a trace(r1) + b trace(r2)')
 def h4_linear(ctx, K, mirrors):
     L = Lens(ctx, K, mirrors, 1, 'inf')
